@@ -13,7 +13,7 @@ if [ -n "$APPLY_TO_REPO" ]; then
   trap 'git -C /repo checkout -- . ; echo "[/repo restored]"' EXIT
   target=/repo
 else
-  target=/dev/shm/rtverif-seeded-$$
+  target=/dev/shm/rtcopy-seeded-$$
   rm -rf $target; mkdir -p $target
   rsync -a --exclude .git --exclude __pycache__ --exclude notebooks --exclude docs /repo/ $target/
   (cd $target && patch -p1 -s < "$patch") || { echo "patch does not apply"; rm -rf $target; exit 2; }
